@@ -99,6 +99,7 @@ def generate(run_seed, cfg):
     return {
         "prop": ID, "form": form, "std": std, "layout_opts": opts, "lines": rend.lines,
         "expected": rend.items, "expected_comments": rend.comments,
+        "comment_lines": rend.comment_lines,
         "layout_features": rend.features, "newline": nl, "final_newline": final_nl,
         "reader": kind, "faults": faults, "eof_at": eof_at,
         "ignore_comments": sw.random() < 0.5, "walk": walk,
@@ -426,27 +427,79 @@ def shrink_candidates(case):
         c = copy.deepcopy(case)
         c["eof_at"] = None
         yield c
-    # drop whole statement groups (by span) from the end, then from the start
+    # drop statement groups (all items sharing a span) anywhere: halves, quarters, ... singles;
+    # the lines of the group go, later spans shift, the comment multiset is no longer checked
     exp = case["expected"]
     spans = sorted({tuple(e["span"]) for e in exp})
-    if len(spans) > 1:
-        for cut_from_end in (True, False):
-            for frac in (2, 4, len(spans)):
-                n = max(1, len(spans) // frac)
-                c = copy.deepcopy(case)
-                if cut_from_end:
-                    keep_until = spans[-n][0] - 1
-                    # also drop comment/blank lines that directly precede the removed group
-                    c["lines"] = case["lines"][:keep_until]
-                    c["expected"] = [e for e in exp if e["span"][1] <= keep_until]
-                    c["expected_comments"] = None
-                else:
-                    drop = spans[n - 1][1]
-                    c["lines"] = case["lines"][drop:]
-                    c["expected"] = [dict(e, span=[e["span"][0] - drop, e["span"][1] - drop])
-                                     for e in exp if e["span"][0] > drop]
-                    c["expected_comments"] = None
-                if c["eof_at"] is not None:
-                    c["eof_at"] = None
-                if c["lines"] and c["expected"] and c["lines"] != case["lines"]:
-                    yield c
+    n = len(spans)
+    chunk = max(1, n // 2)
+    while n > 1 and chunk >= 1:
+        for start in range(0, n, chunk):
+            drop = spans[start:start + chunk]
+            if len(drop) >= n:
+                continue
+            c = _drop_groups(case, drop)
+            if c is not None:
+                yield c
+        if chunk == 1:
+            break
+        chunk //= 2
+    # drop leading / trailing lines that belong to no statement (comments, blanks)
+    if spans:
+        first, last = spans[0][0], spans[-1][1]
+        if first > 1:
+            c = _drop_groups(case, [], cut_head=first - 1)
+            if c is not None:
+                yield c
+        if last < len(case["lines"]):
+            c = copy.deepcopy(case)
+            c["lines"] = case["lines"][:last]
+            if case.get("expected_comments") is not None and case.get("comment_lines"):
+                pairs = [(t, ln) for t, ln in zip(case["expected_comments"],
+                                                  case["comment_lines"]) if ln <= last]
+                c["expected_comments"] = [t for t, _ in pairs]
+                c["comment_lines"] = [ln for _, ln in pairs]
+            else:
+                c["expected_comments"] = None
+            c["eof_at"] = None
+            yield c
+
+
+def _drop_groups(case, drop, cut_head=0):
+    import copy
+
+    c = copy.deepcopy(case)
+    gone = set()
+    for a, b in drop:
+        gone.update(range(a, b + 1))
+    gone.update(range(1, cut_head + 1))
+    if not gone:
+        return None
+    keep = [ln for k, ln in enumerate(case["lines"], 1) if k not in gone]
+    shift = {}
+    removed = 0
+    for k in range(1, len(case["lines"]) + 2):
+        if k in gone:
+            removed += 1
+        shift[k] = k - removed
+    new_exp = []
+    dropset = {tuple(d) for d in drop}
+    for e in case["expected"]:
+        if tuple(e["span"]) in dropset:
+            continue
+        if any(k in gone for k in range(e["span"][0], e["span"][1] + 1)):
+            return None
+        new_exp.append(dict(e, span=[shift[e["span"][0]], shift[e["span"][1]]]))
+    if not keep or not new_exp:
+        return None
+    c["lines"] = keep
+    c["expected"] = new_exp
+    if case.get("expected_comments") is not None and case.get("comment_lines"):
+        pairs = [(t, ln) for t, ln in zip(case["expected_comments"], case["comment_lines"])
+                 if ln not in gone]
+        c["expected_comments"] = [t for t, _ in pairs]
+        c["comment_lines"] = [shift[ln] for _, ln in pairs]
+    else:
+        c["expected_comments"] = None
+    c["eof_at"] = None
+    return c
